@@ -144,12 +144,16 @@ def not_reserved(s):
 
 @functools.lru_cache(maxsize=None)
 def unquoted_strings(d):
-    ident = identifiers().filter(not_reserved)
+    ident = st.one_of(identifiers().filter(not_reserved),
+                      st.sampled_from(["ENDURANCE", "Group2", "NULLS", "TRUEX", "end_groups",
+                                       "Objects", "falsey", "ENDS", "begin_objects"]))
     if d in ODL_FAMILY:
         return ident.map(lambda s: (s, ("str", s)))
     extra = ["a.b", "N/A", "x-y", "foo:bar", "a_b_", "_a", "$x", "@home", "a^b",
              "path/to/file.img", "x.y.z", "a-b-c", "A.", "km/s", "a\\b", "`q`",
-             "é", "x?", "*x", "a*b", "**x"]
+             "é", "x?", "*x", "a*b", "**x", "end.cub", "group.lis", "END-TO-END",
+             "Object/default.pvl", "end-member", "end:1", "null.dat", "true.x", "NULL-1",
+             "False_color", "begin_object.txt", "end.", "END_"]
     if d in PLUS_OK:
         extra += ["a+b", "x+", "C++"]
     if d == "default":
@@ -172,8 +176,17 @@ def quoted_strings(d):
             "(1, 2)", "{x}", "<m>", "END", "end_group", "NULL", "123", "1.5",
             "2001-01-01", "semi;colon", "it's", 'say "hi"', "dash-\n   cont", "dash-\r\n   cont", "a-\n\n b", "x-\r\ny",
             "pre-\r\n\r\n  post", "a - b", "trailing-", "x" * 90, "&", "+", "a\x0bb", "a\x0cb",
-            "-\n", "END\n", "=", ","]
+            "-\n", "END\n", "=", ",",
+            # content that looks like label text (lines that are only a keyword or a
+            # statement), '#' on dash-continued lines, rules of dashes (round 5)
+            "from the start to the\nEND\nof the phase", "x\nEND_GROUP\ny",
+            "a\nGROUP = g\nb", "l1\nEnd\n", "text\nEND;\nmore", "q\n  end  \nr",
+            "first\r\nEND\r\nlast", "k = v\nb = 2", "tail\nEND", "END\nhead",
+            "Filter #3 is -\n   broken", "a # b -\r\n c", "Sample #2 of the north-\nern",
+            "# ---- geometry ----", "rule -----\nnext", "end.cub", "END-TO-END"]
     pool = [s for s in pool if all(c in cs for c in s)]
+    longs = [s for s in ["x" * 4100, "word " * 900, "y" * 4094, "z" * 4095, "w" * 4096,
+                         "line one\n" * 450] if all(c in cs for c in s)]
     # every lexeme of C17's curated list as the content of a quoted string
     from props import c17
     lexemes = sorted({s for s in c17.CURATED if s and all(c in cs for c in s)}
@@ -187,6 +200,8 @@ def quoted_strings(d):
     dashy = st.tuples(dashy, seps).map(
         lambda t: "".join(w + s for w, s in zip(t[0], t[1])).rstrip(" \t"))
     content = st.one_of(st.sampled_from(pool), st.sampled_from(lexemes),
+                        st.integers(0, 29).flatmap(
+                            lambda k: st.sampled_from(longs if k == 0 else pool)),
                         st.text(alphabet=cs, max_size=15),
                         st.text(alphabet="ab \n\t-#/*=;'\"", max_size=10), dashy)
 
@@ -550,10 +565,13 @@ _WS_LIGHT = [" ", " ", "  ", "\t", "\n", "\r\n", "\n  ", " \n"]
 _WS_ALL = [" ", "\t", "\n", "\r\n", "\r", "\x0b", "\x0c"]
 _C_BODIES = ["", " c ", "x=1;", " END ", "'", '"', " ( { < ", " # ", "\n multi\n line ",
              " * ", " a/b ", "= =", "END_GROUP", ";", ",", "-", " - \n x", "'\"",
-             " GROUP = g ", "<m>", "/", "*", "**", " a/", "* x *", "//", " see http://x/"]
+             " GROUP = g ", "<m>", "/", "*", "**", " a/", "* x *", "//", " see http://x/",
+             "\nEND\n", " release #4 -\n notes ", "\n a = 1\n END\n", " x " * 1400,
+             " # ---- x ----\n", "\r\nEnd_Group\r\n"]
 _H_BODIES = ["", " c", "x=1;", " END", "'", '"', " ( { <", " #", " a * b", "= =",
              " GROUP = g", ";;", "<m>", " it's", ' say "hi', " a/*b", " */", " x /* y */",
-             " a//b", " ----------", "-", " see x-", " - ", " a -\t"]
+             " a//b", " ----------", "-", " see x-", " - ", " a -\t",
+             " ---- geometry ----", " END", " /* -", "#-", " y" * 2100]
 
 
 def _sep(rng, d, required, mode):
